@@ -113,14 +113,42 @@ class Table:
                 log.append((tag, tuple(bytes(c) for c in name)))
         return h
 
-    def attach(self, t, rep, tag):
+    def _validator(self, tag, accept=True):
+        log = self.log
+        if self.api == 'v2':
+            from ndn import types as nt
+
+            async def v(name, sig, ctx):
+                log.append(('validator', tag))
+                return nt.ValidResult.PASS if accept else nt.ValidResult.FAIL
+        else:
+            async def v(name, sig):
+                log.append(('validator', tag))
+                return accept
+        return v
+
+    def attach(self, t, rep, tag, accept=True):
         nm = as_repr(t, rep)
         if self.api == 'v2':
-            self.app.attach_handler(nm, self._handler(tag))
+            self.app.attach_handler(nm, self._handler(tag), self._validator(tag, accept))
         elif self.api == 'legacy':
-            self.app.set_interest_filter(nm, self._handler(tag))
+            self.app.set_interest_filter(nm, self._handler(tag), self._validator(tag, accept))
         else:
             self.d.register(nm, self._handler(tag))
+
+    def probe_signed(self, t):
+        """deliver a signed Interest named t: the validator attached with the handler is consulted, then the handler runs"""
+        del self.log[:]
+        if self.api == 'dispatcher':
+            return None
+        key = ('signed', t)
+        if key not in _WIRES:
+            from ndn.security import DigestSha256Signer
+            _WIRES[key] = bytes(enc.make_interest(comps(t), enc.InterestParam(nonce=0x0a0b0c0d, lifetime=4000), b'p',
+                                                  DigestSha256Signer(for_interest=True)))
+        self.face.deliver(_WIRES[key])
+        self.loop.drain()
+        return [(x[0], x[1]) if x[0] == 'validator' else (x[0],) for x in self.log]
 
     def detach(self, t, rep):
         nm = as_repr(t, rep)
@@ -223,7 +251,7 @@ def run_history(api, seq, acc):
                 gen += 1
                 tag = f'g{gen}'
                 try:
-                    tb.attach(p, rep, tag)
+                    tb.attach(p, rep, tag, accept=p not in attached)     # a (to be refused) second attach brings a rejecting validator
                     if p in attached:
                         viol.append((f'C04|{api}|hist|duplicate-attach-accepted',
                                      f'second handler attached to occupied prefix /{"/".join(p)} without error (history {seq})'))
@@ -247,11 +275,27 @@ def run_history(api, seq, acc):
                 attached.pop(p, None)
             if not check_table(tb, attached, PROBES_H, f'hist', viol, acc):
                 break
+            if api != 'dispatcher':
+                bad = False
+                for t in PROBES_S:
+                    got = tb.probe_signed(t)
+                    exp_p = ref_lookup(attached, t)
+                    exp = [] if exp_p is None else [('validator', attached[exp_p]), (attached[exp_p],)]
+                    acc.transitions += 1
+                    if got != exp:
+                        viol.append((f'C04|{api}|hist|signed-interest|{"validator-not-the-attached-one" if got and exp else "dispatch-differs"}',
+                                     f'signed Interest /{"/".join(t)} with attached {sorted("/" + "/".join(q) for q in attached)}: '
+                                     f'observed {got}, expected {exp} (history {seq})'))
+                        bad = True
+                        break
+                if bad:
+                    break
     finally:
         tb.close()
     return viol
 
 
+PROBES_S = [('a',), ('a', 'b'), ('a', 'b', 'c'), ('a', 'b', 'c', 'a'), ('b',), ('b', 'a'), ('c',)]
 PROBES_H = [t for t in names_over('abc', 4) if t[:1] != ('c',)] + [('c',)]
 
 
